@@ -1,6 +1,6 @@
 //! Utility for Qt naming convention.
 
-use std::collections::HashMap;
+use std::collections::{HashMap, HashSet};
 
 /// File naming rules.
 #[derive(Clone, Debug, Eq, PartialEq)]
@@ -73,6 +73,7 @@ impl Default for FileNameRules {
 #[derive(Clone, Debug, Default)]
 pub struct UniqueNameGenerator {
     used_prefixes: HashMap<String, usize>, // prefix: next count
+    used_names: HashSet<String>,           // names generated so far
 }
 
 impl UniqueNameGenerator {
@@ -87,8 +88,19 @@ impl UniqueNameGenerator {
     {
         let prefix = prefix.as_ref();
         let count = self.used_prefixes.entry(prefix.to_owned()).or_insert(0);
-        let id = concat_number_suffix(prefix, *count);
-        *count += 1;
+        // The name may have been generated for another prefix: "foo" + 1 vs "foo1".
+        let (n, id) = (*count..=*count + self.used_names.len())
+            .find_map(|n| {
+                let id = concat_number_suffix(prefix, n);
+                if self.used_names.contains(&id) {
+                    None
+                } else {
+                    Some((n, id))
+                }
+            })
+            .expect("unused id must be found within N+1 tries");
+        *count = n + 1;
+        self.used_names.insert(id.clone());
         id
     }
 
@@ -104,10 +116,10 @@ impl UniqueNameGenerator {
     {
         let prefix = prefix.as_ref();
         let count = self.used_prefixes.entry(prefix.to_owned()).or_insert(0);
-        let (n, id) = (*count..=*count + reserved_map.len())
+        let (n, id) = (*count..=*count + reserved_map.len() + self.used_names.len())
             .find_map(|n| {
                 let id = concat_number_suffix(prefix, n);
-                if reserved_map.contains_key(&id) {
+                if reserved_map.contains_key(&id) || self.used_names.contains(&id) {
                     None
                 } else {
                     Some((n, id))
@@ -115,6 +127,7 @@ impl UniqueNameGenerator {
             })
             .expect("unused id must be found within N+1 tries");
         *count = n + 1;
+        self.used_names.insert(id.clone());
         id
     }
 }
